@@ -199,7 +199,8 @@ pub fn names() -> Names {
     let api = MockApi::default();
     Names {
         delegators: vec![api.addr_make("d1").into_string(), api.addr_make("d2").into_string()],
-        validators: vec!["valoper-one".into(), "valoper-two".into(), "valoper-unknown".into()],
+        // (the two validators differ in letter case only: they are different validators)
+        validators: vec!["valoper-one".into(), "VALOPER-ONE".into(), "valoper-unknown".into()],
         withdraw: vec![api.addr_make("w0").into_string()],
         commissions: vec![10, 0],
     }
@@ -486,6 +487,9 @@ pub fn step(app: &mut SApp, nm: &Names, st: &SState, op: &SOp, cfg: &Cfg, ops_al
                 // exactly the block update_block would give (the states merge with those of the
                 // advance operation; only the way the block is set differs)
                 b.height += 1;
+            } else if *secs == 0 {
+                // the very same block set again (same height, time and chain id): a block update
+                // like any other
             } else {
                 b.height += 7;
                 b.chain_id = "renamed-chain".into();
